@@ -1,7 +1,7 @@
 """C02 - and/or/xor are pointwise Boolean algebra, null is the identity, operands unchanged."""
 from __future__ import annotations
 
-from .. import build, gen as G, model as M, mon
+from .. import build, gen as G, model as M, mon, pathcases as PC
 from ..core import call
 from ..lit import canon
 
@@ -104,6 +104,17 @@ def strata(tier):
                           {"c": op, "a": {"c": op, "a": A, "b": X}, "b": B}, {"c": op, "a": {"c": op, "a": A, "b": B}, "b": A}):
                     yield {"mode": "tree", "via": "spec", "container": cont, "tree": t, "flatten": True, "stratum": "twin-operands"}
                     yield {"mode": "tree", "via": "op", "container": cont, "tree": t, "stratum": "twin-operands"}
+    # operands with data-path arguments, filtered with a source document (every position of the path operand)
+    pl, plain = _src_leaves()
+    for i, A in enumerate(pl):
+        for op in OPS:
+            B, B2 = plain[i % len(plain)], plain[(i + 1) % len(plain)]
+            A2 = pl[(i + 3) % len(pl)]
+            for t in ({"c": op, "a": A, "b": B}, {"c": op, "a": B, "b": A}, {"c": op, "a": {"c": op, "a": B, "b": B2}, "b": A},
+                      {"c": op, "a": B, "b": {"c": OPS[(i + 1) % 3], "a": B2, "b": A}}, {"c": op, "a": A, "b": A2},
+                      {"c": OPS[(i + 2) % 3], "a": {"c": op, "a": B, "b": A}, "b": {"c": op, "a": A2, "b": B2}}):
+                for via in ("op", "spec"):
+                    yield {"mode": "source", "via": via, "tree": t}
     for j in range(40 if tier == "quick" else 200):
         yield gen_history(G.rng_for("C02-hist", j), 30 if tier == "quick" else 120)
 
@@ -127,7 +138,7 @@ def gen_history(rng, nsteps):
             j = len(pool) - 1  # the null member
         if rng.random() < 0.1:
             i, j = j, i
-        steps.append([rng.choice(OPS), i, j, rng.choice(["op", "op", "spec", "part"])])
+        steps.append([rng.choice(OPS), i, j, rng.choice(["op", "op", "spec", "part", "iop"])])
     return {"mode": "history", "pool": pool, "steps": steps, "probes": probes, "on_map": on_map}
 
 
@@ -166,6 +177,8 @@ def required(m, tier):
     for k in ("null:R", "null:L", "null:comb-R", "null:comb-L", "null:same-op-comb", "null:both"):
         if st.get(k, 0) < 50:
             out.append(f"null position {k} judged {st.get(k, 0)} times")
+    if st.get("source-data-trees", 0) < 100:
+        out.append(f"only {st.get('source-data-trees', 0)} combinations with data-path operands filtered with a source document")
     if st.get("history:reused-operand", 0) < 100:
         out.append(f"only {st.get('history:reused-operand', 0)} histories with a reused operand")
     return out[:6]
@@ -254,8 +267,75 @@ def check_operands(ctx, reg, cont, kcls, skip_last=True):
         compare(ctx, term, obj, cont, "operand after combination", kcls)
 
 
+SRC_DOC = {"limit": 3, "names": ["a", "abc", 5], "m": {"k": 2, "j": 12}, "none": None, "t": [True, 2.5]}
+SRC_CONT = [5, 0, -3, 2.5, True, None, "abc", "a", 12, 2, 3, [1, 2]]
+
+
+def _P(*keys, datum=None, multi=None):
+    return {"$path": dict(PC.mkpath([{"p": "prim", "v": k} for k in keys]), datum=datum, multi=multi)}
+
+
+def _src_leaves():
+    L = PC.L
+    return [L("value", "less_than", _P("limit")), L("value", "in_", _P("names")), L("value", "equal_to", _P("m", "k")),
+            L("value", "greater_than", _P("m", "j")), L("value", "in_range", _P("m", "k"), _P("m", "j")),
+            L("value", "equal_to", _P("names", datum="length")), L("value", "not_equal_to", _P("nope")),
+            L("value", "in_", [_P("limit"), _P("m", "j"), "a"])], [L("value", "truthy"), L("value", "is_instance", {"$type": "int"}),
+                                                                L("value", "greater_than", 1), L("value", "in_", ["abc", 2, 12])]
+
+
+def run_source(case, ctx):
+    """operands with data-path arguments: the combination filtered with a source document gives, item by item,
+    the Boolean operation of what each operand gives when filtered with the same source document"""
+    t, via = case["tree"], case["via"]
+    kcls = f"{t['c']}/source-data"
+    if via == "op":
+        ok, obj = call(build.cond_obj, t)
+    else:
+        ok, obj = call(lambda: __import__("valida").conditions.ConditionLike.from_spec(nary_spec(t, None)))
+    if not ok:
+        ctx.violate(f"C02/{obj.key()}/{kcls}", f"construction raised {obj!r}; term={t}")
+        return
+    truth = {"and": lambda x, y: x and y, "or": lambda x, y: x or y, "xor": lambda x, y: x != y}
+
+    def expected(term):
+        if term["c"] in truth:
+            a, b = expected(term["a"]), expected(term["b"])
+            return None if a is None or b is None else [truth[term["c"]](x, y) for x, y in zip(a, b)]
+        ok1, fd = call(lambda: build.cond_obj(term).filter(SRC_CONT, source_data=SRC_DOC))
+        return fd.result if ok1 else None
+    exp = expected(t)
+    ok, fd = call(lambda: obj.filter(SRC_CONT, source_data=SRC_DOC))
+    ctx.count("source-data-trees")
+    if exp is None:
+        ctx.count("source-data:operand-raised")
+        return
+    if not ok:
+        ctx.violate(f"C02/{fd.key()}/{kcls}", f"combination raised {fd!r} although each operand filters; term={t}")
+        return
+    if fd.result != exp:
+        ctx.violate(f"C02/pointwise/{kcls}", f"with source_data: combination gives {fd.result}, the operands combine to {exp}; term={t}")
+    # and against the literal the paths denote (the model)
+    try:
+        lit = c17_substitute(t, SRC_DOC)
+        m = M.filter_model(lit, SRC_CONT)
+        if any(w is not M.SKIP and g != w for g, w in zip(fd.result, m)):
+            ctx.violate(f"C02/pointwise-vs-model/{kcls}", f"with source_data: {fd.result}, model of the denoted literals {m}; term={t}")
+    except (M.Undefined, M.SingleViolation):
+        pass
+    if len(set(fd.result)) > 1:
+        ctx.mark_nontrivial(("src", repr(t)))
+
+
+def c17_substitute(t, src):
+    from . import c17
+    return c17.substitute(t, src)
+
+
 def run(case, ctx):
-    if case["mode"] == "tree":
+    if case["mode"] == "source":
+        run_source(case, ctx)
+    elif case["mode"] == "tree":
         run_tree(case, ctx)
     else:
         run_history(case, ctx)
@@ -345,6 +425,12 @@ def run_history(case, ctx):
         a, b = objs[i], objs[j]
         if via == "op":
             ok, o = call({"and": lambda: a & b, "or": lambda: a | b, "xor": lambda: a ^ b}[op])
+        elif via == "iop":
+            # augmented assignment `x &= b` on a name bound to a: the object a (still a pool member, possibly an
+            # operand of earlier combinations) must stay what it was
+            import operator
+            ok, o = call({"and": operator.iand, "or": operator.ior, "xor": operator.ixor}[op], a, b)
+            ctx.count("history:augmented-assignment")
         elif via == "spec":
             cls = {"and": C.ConditionAnd, "or": C.ConditionOr, "xor": C.ConditionXor}[op]
             ok, o = call(cls, a, b)
